@@ -408,6 +408,10 @@ func (p *Parser) parseAssignStmt() ast.Statement {
 
 	stmt.Value = p.parseExpression(LOWEST)
 
+	if !p.expectEndOfCode() {
+		return nil
+	}
+
 	return stmt
 }
 
@@ -1017,11 +1021,32 @@ func (p *Parser) parseExpressionStmt() ast.Statement {
 
 	result := &ast.ExpressionStmt{Token: p.curToken, Expression: exp}
 
+	if !p.expectEndOfCode() {
+		return nil
+	}
+
 	if p.peekTokenIs(token.RBRACES) {
 		p.nextToken() // skip "}}"
 	}
 
 	return result
+}
+
+// expectEndOfCode checks that embedded code is followed by "}}", or by
+// the ";" or ")" that end a statement or a clause of the @for directive
+func (p *Parser) expectEndOfCode() bool {
+	if p.peekTokenIs(token.RBRACES, token.SEMI, token.RPAREN) {
+		return true
+	}
+
+	p.newError(
+		p.peekToken.ErrorLine(),
+		fail.ErrWrongNextToken,
+		token.String(token.RBRACES),
+		token.String(p.peekToken.Type),
+	)
+
+	return false
 }
 
 func (p *Parser) parseExpression(precedence int) ast.Expression {
